@@ -1,6 +1,6 @@
 /* C04 (observation path): mtbl_source_write (real source.c) hands every entry of the source's iterator to mtbl_writer_add
  * exactly once, in order, stops at the first refusal and destroys the iterator. */
-#include "/repo/mtbl/source.c"
+#include "mtbl/source.c"
 #include "spec/ghost.h"
 struct mtbl_iter { unsigned pos; }; struct mtbl_writer { int d; };
 static unsigned vg_n, vg_adds, vg_refuse_at; static _Bool vg_iter_null; static int vg_iters_live;
